@@ -2872,7 +2872,7 @@ protected:
 			bool round = (mask & raw);
 			if constexpr (shift > 1u) { // protect against a negative shift
 				StorageType allones(StorageType(~0));
-				mask = StorageType(allones << (shift - 2));
+				mask = StorageType(allones << (shift - 1));
 				mask = ~mask;
 			}
 			else {
